@@ -100,7 +100,7 @@ func c08(p *Prog, r *Report) {
 			}
 			n++
 			t := s.Of(rps[i].Vals[1]).String()
-			pat := "call<crypto/elliptic.MarshalCompressed>(param:0.curve, extract<0>(call<ecdsa.BlindPublicKeyWithContext>(param:0.curve, ref(struct<ecdsa.PublicKey>(kv<Curve>(param:0.curve), kv<X>(extract<0>(call<crypto/elliptic.UnmarshalCompressed>(param:0.curve, *.RequestKey))), kv<Y>(*))), extract<0>(lookup(param:0.originIndexKeys, call<tokens/type3.unpadOriginName>(*.paddedOrigin))), " + tCtxIssuer + ")).X, *.Y)"
+			pat := "call<crypto/elliptic.MarshalCompressed>(param:0.curve, extract<0>(call<ecdsa.BlindPublicKeyWithContext>(param:0.curve, ref(struct<ecdsa.PublicKey>(kv<Curve>(param:0.curve), kv<X>(extract<0>(call<crypto/elliptic.UnmarshalCompressed>(param:0.curve, *.RequestKey))), kv<Y>(*))), extract<0>(lookup(param:0.*, call<tokens/type3.unpadOriginName>(*.paddedOrigin))), " + tCtxIssuer + ")).X, *.Y)"
 			if !glob(pat, t) || strings.Count(t, "IssuerBlind") != 2 {
 				ok = false
 				detail = "second result is " + clip(t, 500)
